@@ -44,7 +44,11 @@ def merge_schemas(left_schema, right_schema, how, on=None):
 
     left_on_fields, right_on_fields = get_on_fields(left_schema, right_schema, on)
     other_left_fields = [field for field in left_schema.fields if field not in left_on_fields]
-    other_right_fields = [field for field in right_schema.fields if field not in right_on_fields]
+    if how in (LEFT_ANTI_JOIN, LEFT_SEMI_JOIN):
+        # semi and anti joins only return columns of the left side
+        other_right_fields = []
+    else:
+        other_right_fields = [field for field in right_schema.fields if field not in right_on_fields]
 
     if how in (INNER_JOIN, CROSS_JOIN, LEFT_JOIN, LEFT_ANTI_JOIN, LEFT_SEMI_JOIN):
         on_fields = left_on_fields
